@@ -168,11 +168,15 @@ def trace_stage(prop, name, recorder, rec_args, module, cfg, memprop="C01"):
         return {"stage": name, "kind": "code->spec trace validation", "violations": nviol, "traces_validated": 0, "events": 0,
                 "other_property_notes": notes, "samples": [], "wall_s": round(time.time() - t0, 1), "exhaustive": False}
     viol, summ, tl = validate_trace(prop, module, cfg, trace, odir)
-    for p, line, what in viol:
+    seen = set()
+    for p, line, what in viol[:40]:
+        if (p, what) in seen and len(seen) > 6:
+            continue
+        seen.add((p, what))
         ln = int(line.split()[1])
         own = prop in p.split(",")
         if own: p = prop
-        vf = os.path.join(odir, "viol-%s.ndjson" % p.replace(",", "-"))
+        vf = os.path.join(odir, "viol-%s-%d.ndjson" % (p.replace(",", "-"), ln))
         # replay file: the events up to and including the offending line (from the last init on)
         with open(trace) as f: L = f.readlines()
         start = max((i for i in range(ln) if L[i].startswith('{"e":"I"')), default=0)
@@ -224,23 +228,27 @@ ASSUME_COMMON = [
 # ------------------------------------------------- MC_Nav based checks -------
 # stage name -> constants of MC_Nav.  Every stage explores ALL documents the builder can
 # produce within the bound and the complete graph of the enabled calls.
-def _nav(MaxNodes, MaxNest, Vals, DocNames, LookNames, Ops, Roots, ParserMaxD=4):
+def _nav(MaxNodes, MaxNest, Vals, DocNames, LookNames, Ops, Roots, ParserMaxD=4, HistK=0, NavScope="C06"):
     return dict(MaxNodes=MaxNodes, MaxNest=MaxNest, Vals=Vals, DocNames=DocNames, LookNames=LookNames,
-                Ops=Ops, Roots=Roots, ParserMaxD=ParserMaxD)
+                Ops=Ops, Roots=Roots, ParserMaxD=ParserMaxD, HistK=HistK, NavScope='"%s"' % NavScope)
 
 NAV_STAGES = {
-    "C06": {"quick":    [("nav", _nav(4, 3, "ValsInt1", "NamesAB", "LookAB", "OpsNavE", "RootsOA"))],
+    "C06": {"quick":    [("nav", _nav(4, 3, "ValsInt1", "NamesAB", "LookAB", "OpsNavE", "RootsOA")),
+                         ("nav-history-2", _nav(3, 3, "ValsInt1", "NamesAB", "LookAB", "OpsNav", "RootsOA", HistK=2))],
             "thorough": [("nav", _nav(6, 4, "ValsInt1", "NamesAB", "LookAB", "OpsNavE", "RootsOA")),
+                         ("nav-history-2", _nav(4, 3, "ValsInt1", "NamesAB", "LookAB", "OpsNav", "RootsOA", HistK=2)),
                          ("nav-mixed-values", _nav(4, 3, "ValsMix", "NamesAB", "LookAB", "OpsNavE", "RootsOA"))]},
     "C03": {"quick":    [("values-names", _nav(2, 2, "ValsAll", "NamesRich", "LookAB", "OpsNav", "RootsOA")),
-                         ("reused-levels-empty-names", _nav(4, 3, "ValsInt1", "NamesE", "LookAB", "OpsWalk", "RootsOA")),
+                         ("full-traversals", _nav(5, 3, "ValsInt1", "NamesE", "LookAB", "OpsFull", "RootsOA", NavScope="C03,C06")),
                          ("values-3", _nav(3, 2, "ValsAll", "NamesAB", "LookAB", "OpsWalk", "RootsOA"))],
             "thorough": [("values-names", _nav(3, 3, "ValsAll", "NamesRich", "LookAB", "OpsWalk", "RootsOA")),
-                         ("reused-levels-empty-names", _nav(6, 4, "ValsInt1", "NamesE", "LookAB", "OpsWalk", "RootsOA")),
+                         ("full-traversals", _nav(7, 4, "ValsInt1", "NamesE", "LookAB", "OpsFull", "RootsOA", NavScope="C03,C06")),
+                         ("full-traversals-values", _nav(4, 3, "ValsMix", "NamesRich", "LookAB", "OpsFull", "RootsOA", NavScope="C03,C06")),
                          ("values-nest", _nav(3, 3, "ValsAll", "NamesAB", "LookAB", "OpsNav", "RootsOA"))]},
     "C07": {"quick":    [("lookup-structure", _nav(4, 3, "ValsInt1", "NamesAB", "LookAB", "OpsLook", "RootsOA")),
                          ("lookup-names", _nav(3, 2, "ValsInt1", "NamesRich", "LookRich", "OpsLook", "RootsO")),
-                         ("lookup-long-names", _nav(3, 2, "ValsInt1", "NamesLong", "LookLong", "OpsLook", "RootsO"))],
+                         ("lookup-long-names", _nav(3, 2, "ValsInt1", "NamesLong", "LookLong", "OpsLook", "RootsO", HistK=1)),
+                         ("lookup-history-2", _nav(3, 3, "ValsInt1", "NamesAB", "LookAB", "OpsLook", "RootsOA", HistK=2))],
             "thorough": [("lookup-structure", _nav(5, 3, "ValsInt1", "NamesAB", "LookAB", "OpsLook", "RootsOA")),
                          ("lookup-names", _nav(3, 3, "ValsMix", "NamesRich", "LookRich", "OpsLook", "RootsO")),
                          ("lookup-long-names", _nav(4, 3, "ValsInt1", "NamesLong", "LookLong", "OpsLook", "RootsO")),
@@ -250,14 +258,15 @@ NAV_STAGES = {
                          ("transcribe-mixed", _nav(4, 3, "ValsMix", "NamesAB", "LookAB", "OpsTrans", "RootsOA", 10))],
             "thorough": [("transcribe-structure", _nav(7, 5, "ValsInt1", "NamesAB", "LookAB", "OpsTrans", "RootsOA", 10)),
                          ("transcribe-values", _nav(3, 3, "ValsAll", "NamesRich", "LookAB", "OpsTrans", "RootsOA", 10))]},
-    "C11": {"quick":    [("raw", _nav(4, 3, "ValsInt1", "NamesAB", "LookAB", "OpsNav", "RootsOA"))],
+    "C11": {"quick":    [("raw", _nav(4, 3, "ValsInt1", "NamesAB", "LookAB", "OpsNav", "RootsOA")),
+                         ("raw-history-2", _nav(3, 3, "ValsInt1", "NamesAB", "LookAB", "OpsNav", "RootsOA", HistK=2))],
             "thorough": [("raw", _nav(6, 4, "ValsInt1", "NamesAB", "LookAB", "OpsNav", "RootsOA")),
                          ("raw-lookup", _nav(4, 3, "ValsMix", "NamesAB", "LookAB", "OpsAll", "RootsOA"))]},
 }
 
 
 PTRACE = {  # recorded executions of the real parser validated by spec/TraceParser.tla
-    "quick":    {"valid": "--mode valid --docs 500 --big", "mutate": "--mode mutate --docs 600", "hostile": "--mode hostile --docs 600", "mixed": "--mode mixed --docs 600 --big"},
+    "quick":    {"valid": "--mode valid --docs 300 --big", "mutate": "--mode mutate --docs 600", "hostile": "--mode hostile --docs 600", "mixed": "--mode mixed --docs 600 --big"},
     "thorough": {"valid": "--mode valid --docs 6000 --big", "mutate": "--mode mutate --docs 8000 --big", "hostile": "--mode hostile --docs 8000 --big", "mixed": "--mode mixed --docs 8000 --big"},
 }
 PTRACE_FLAVOUR = {"C01": "hostile", "C02": "mixed", "C03": "valid", "C06": "valid", "C07": "valid", "C08": "mutate", "C09": "hostile",
@@ -284,10 +293,12 @@ for _p in NAV_STAGES:
 
 # ---------------------------------------------------------------- C08 -------
 STREAM_STAGES = {
-    "quick":    [("stream-k3", dict(K=3, MaxD=2, Sigma="SigmaS", Names="NamesS", Roots="RootsOA")),
-                 ("stream-k2-large-alphabet", dict(K=2, MaxD=1, Sigma="SigmaL", Names="NamesS", Roots="RootsOA"))],
-    "thorough": [("stream-k4", dict(K=4, MaxD=2, Sigma="SigmaS", Names="NamesS", Roots="RootsOA")),
-                 ("stream-k3-large-alphabet", dict(K=3, MaxD=3, Sigma="SigmaL", Names="NamesS", Roots="RootsOA"))],
+    "quick":    [("stream-k3", dict(K=3, MaxD=2, Sigma="SigmaS", Names="NamesS", Roots="RootsOA", HistK=0)),
+                 ("stream-k2-history-2", dict(K=2, MaxD=2, Sigma="SigmaS", Names="NamesS", Roots="RootsOA", HistK=2)),
+                 ("stream-k2-large-alphabet", dict(K=2, MaxD=1, Sigma="SigmaL", Names="NamesS", Roots="RootsOA", HistK=0))],
+    "thorough": [("stream-k4", dict(K=4, MaxD=2, Sigma="SigmaS", Names="NamesS", Roots="RootsOA", HistK=0)),
+                 ("stream-k3-history-2", dict(K=3, MaxD=2, Sigma="SigmaS", Names="NamesS", Roots="RootsOA", HistK=2)),
+                 ("stream-k3-large-alphabet", dict(K=3, MaxD=3, Sigma="SigmaL", Names="NamesS", Roots="RootsOA", HistK=0))],
 }
 
 
@@ -323,8 +334,12 @@ EXTRA_STAGES = {
                       ("writer-reset", "MC_Writer.tla", "MC_Writer.cfg", WRITER_Q)],
             "thorough": [("reuse-nav", "MC_Nav.tla", "MC_Nav.cfg", _nav(5, 3, "ValsMix", "NamesAB", "LookAB", "OpsReuse", "RootsOA")),
                          ("writer-reset", "MC_Writer.tla", "MC_Writer.cfg", WRITER_T)]},
-    "C09": {"quick": [("writer-latch", "MC_Writer.tla", "MC_Writer.cfg", WRITER_Q)],
-            "thorough": [("writer-latch", "MC_Writer.tla", "MC_Writer.cfg", WRITER_T)]},
+    "C09": {"quick": [("writer-latch", "MC_Writer.tla", "MC_Writer.cfg", WRITER_Q),
+                      ("to-writer-latched", "MC_Nav.tla", "MC_Nav.cfg", _nav(3, 3, "ValsInt1", "NamesAB", "LookAB", "OpsNav", "RootsOA"))],
+            "thorough": [("writer-latch", "MC_Writer.tla", "MC_Writer.cfg", WRITER_T),
+                         ("to-writer-latched", "MC_Nav.tla", "MC_Nav.cfg", _nav(5, 3, "ValsInt1", "NamesAB", "LookAB", "OpsNav", "RootsOA"))]},
+    "C01": {"quick": [("nesting-limits", "MC_Verify.tla", "MC_Verify.cfg", dict(K=0, MaxDs="MaxDsDeep", Sigma="SigmaMid", Deep="TRUE"))],
+            "thorough": [("nesting-limits", "MC_Verify.tla", "MC_Verify.cfg", dict(K=0, MaxDs="MaxDsDeep", Sigma="SigmaMid", Deep="TRUE"))]},
 }
 
 
@@ -560,7 +575,7 @@ C18_CORPUS = {
     "parser": ("replay_parser", "BEH ", [
         ("MC_Nav.tla", "MC_Nav.cfg", _nav(2, 3, "ValsAll", "NamesRich", "LookRich", "OpsAll", "RootsOA")),
         ("MC_Nav.tla", "MC_Nav.cfg", _nav(3, 3, "ValsInt1", "NamesAB", "LookAB", "OpsReuse", "RootsOA")),
-        ("MC_Stream.tla", "MC_Stream.cfg", dict(K=3, MaxD=2, Sigma="SigmaS", Names="NamesS", Roots="RootsOA")),
+        ("MC_Stream.tla", "MC_Stream.cfg", dict(K=3, MaxD=2, Sigma="SigmaS", Names="NamesS", Roots="RootsOA", HistK=0)),
         ("MC_Safety.tla", "MC_Safety.cfg", _saf(1, 3, "MaxDs12", "SigmaTok", "FillsQ")),
         ("MC_Verify.tla", "MC_Verify.cfg", dict(K=2, MaxDs="MaxDs123", Sigma="SigmaFull", Deep="FALSE")),
         ("MC_Nav.tla", "MC_Nav.cfg", _nav(2, 3, "ValsAll", "NamesRich", "LookAB", "OpsTrans", "RootsOA", 10))]),
